@@ -99,7 +99,8 @@ Split(vs) ==
   ELSE IF n = 3 /\ (~IsIntegral(vs[3]) \/ vs[3].n < 0) THEN VErr
   ELSE LET s == vs[1].s  sep == vs[2].s
            count == IF n = 3 THEN IntArg(vs[3]) ELSE 0 - 1
-       IN IF Len(sep) = 0
+       IN IF Len(s) = 0 /\ n = 3 THEN Open              \* empty subject with an explicit count: open
+          ELSE IF Len(sep) = 0
           THEN \* one element per code point; with a count the rest stays together
                (IF count < 0 \/ count >= Len(s) THEN Arr([i \in 1..Len(s) |-> Str(<<s[i]>>)])
                 ELSE Arr([i \in 1..(count + 1) |->
